@@ -1,4 +1,4 @@
-import BfeVerif.C30.Proofs
+import BfeVerif.C30.Sync
 /-!
   C30 — HPACK encoding round-trips and respects table limits.  Property theorems only.
 -/
@@ -60,6 +60,49 @@ theorem C30_huffman_length (s : List Nat) : (huffEncode T s).length = huffEncode
 theorem C30_string_roundtrip (s rest : List Nat) (hs : ∀ c ∈ s, c < 256) (hlen : s.length < 2 ^ 63) :
     readString T 0 (appendHpackString T s ++ rest) = .ok (s, rest) :=
   readString_append C30_tables_ok s rest (by rw [C30_table_codes_length]; exact hs) hlen
+
+/-- **C30, encoder/decoder synchronisation over whole histories.**  Encoder = NewEncoder, decoder =
+    NewDecoder(4096) with SetAllowedMaxDynamicTableSize(a).  For EVERY sequence of WriteField /
+    SetMaxDynamicTableSize / SetMaxDynamicTableSizeLimit / end-of-block operations (fields with byte octets,
+    limit never above `a`, a < 2^32), every block decodes without error to exactly the fields written into it
+    (names, values, never-index flags, in order), both tables stay within their maximum, the decoder's maximum
+    within `a`, and whenever the encoder owes no size update the two dynamic tables are equal.
+    The invariant behind it (`Sync`) is the size-update bookkeeping: not pending ⇒ minSize is reset and the tables
+    are equal; pending ⇒ the encoder's table is the decoder's evicted down to minSize ≤ maxSize, which is what the
+    next WriteField announces (after the C30 fix of SetMaxDynamicTableSizeLimit; emit never fails). -/
+theorem C30_sync (a : Nat) (ops : List Op) (ha0 : BfeVerif.Generated.C30.initialHeaderTableSize ≤ a)
+    (ha : a < 2 ^ 32) (hops : ∀ op ∈ ops, OpValid a op) :
+    AllGood a (runHist T a ops).obs (expected ops []) := by
+  have hau : a ≤ uint32Max := by unfold uint32Max; omega
+  have hst : T.static.length < 2 ^ 62 := by rw [C30_table_shape.2]; decide
+  have hops' : ∀ op ∈ ops, OpOk T a op := by
+    intro op hop
+    have := hops op hop
+    cases op with
+    | field f =>
+      obtain ⟨⟨h1, h2⟩, ⟨h3, h4⟩⟩ := this
+      exact ⟨⟨by rw [C30_table_codes_length]; exact h1, by omega⟩, ⟨by rw [C30_table_codes_length]; exact h3, by omega⟩⟩
+    | setLimit v => exact this
+    | setMax v => trivial
+    | endBlock => trivial
+  have g := setMaxSize_good ({} : DynTab) BfeVerif.Generated.C30.initialHeaderTableSize rfl
+  have pr := setMaxSize_pair ({} : DynTab) BfeVerif.Generated.C30.initialHeaderTableSize
+  have hinit : Inv T a (Hist.init a) [] := by
+    refine ⟨rfl, rfl, _, Chain.nil _, ?_⟩
+    exact { dwf := g.1, dle := g.2, dmaxa := by show (DynTab.setMaxSize {} _).maxSize ≤ a; rw [pr.2]; exact ha0,
+            dallowed := rfl, dstr := rfl,
+            elim := ha0, emax := by show (DynTab.setMaxSize {} _).maxSize ≤ _; rw [pr.2]; exact Nat.le_refl _,
+            np := fun _ => ⟨rfl, rfl⟩, p := (fun hc => by cases hc) }
+  obtain ⟨obs', h1, h2⟩ := sync_history C30_tables_ok hst hau ops (Hist.init a) [] hinit hops'
+  unfold runHist
+  rw [h1]
+  simpa [Hist.init] using h2
+
+/-- non-vacuity / the history that desynchronised the tables before the fix of SetMaxDynamicTableSizeLimit
+    (limit 50 evicts, limit 8192, max 4096: only "4096" was announced): now one record per block, all good -/
+example : (runHist T 8192 [.field ⟨[120, 45, 97], List.replicate 20 97, false⟩, .endBlock, .setLimit 50, .setLimit 8192,
+    .setMax 4096, .field ⟨[120, 45, 98], [98], false⟩, .endBlock]).obs.map (fun o => (o.enc == o.dec, o.fields.length)) =
+    [(true, 1), (true, 1)] := by decide +kernel
 
 example : ({ ents := [{ name := [1], value := [2] }], size := 34, maxSize := 40 } : DynTab).WF := rfl
 example : huffEncode T [119, 119, 119, 46, 101, 120, 97, 109, 112, 108, 101, 46, 99, 111, 109] =
